@@ -90,15 +90,29 @@ theorem C01_nil_read_mask_reads_all (cfg : Cfg M K R) (s : CState M R) (v : VSta
   rw [h]
   exact ⟨rfl, rfl⟩
 
-/-- List with any option list, on any state with distinct keys: ids strictly increasing; an entry is
-listed iff the LAST include predicate (if any) accepts the id and the STORED message (not its masked
-projection), and what is listed is the projection of the stored message by the LAST read mask. -/
-theorem C01_list_options (cfg : Cfg M K R) (s : CState M R) (hn : NodupKeys s.items)
+/-- List with any option list, on every reachable state (any initial records, any sequence of calls
+with option lists): ids strictly increasing; an entry is listed iff the LAST include predicate (if any)
+accepts the id and the STORED message (not its masked projection), and what is listed is the projection
+of the stored message by the LAST read mask. -/
+theorem C01_list_options (cfg : Cfg M K R) (h : EqRefl cfg.ops) (records : List (String × M)) (rng : R)
+    (ops : List (COpO M K))
     (pre post : List (ROpt M K)) (m : Option K) (f : Option (String → M → Bool))
     (hm : ∀ o ∈ post, o.setsReadMask = false) (hf : ∀ o ∈ post, o.setsInclude = false) :
+    let s := (Coll.runO cfg (Coll.init cfg records rng) ops).2
     ((Coll.listIdsO cfg s (pre ++ .readMask m :: .incl f :: post)).map (·.1)).Pairwise (· < ·) ∧
     ∀ id v, (id, v) ∈ Coll.listIdsO cfg s (pre ++ .readMask m :: .incl f :: post) ↔
       ∃ it, lookup s.items id = some it ∧ (∀ p, f = some p → p id it.body = true) ∧ v = cfg.ops.filter m it.body := by
+  intro s
+  have hn : NodupKeys s.items := by
+    have : ∀ (ops : List (COp M K)) (s0 : CState M R), NodupKeys s0.items →
+        NodupKeys (Coll.run cfg s0 ops).2.items := by
+      intro ops
+      induction ops with
+      | nil => intro s0 h0; exact h0
+      | cons op ops ih => intro s0 h0; simp only [Coll.run]; exact ih _ (step_nodup cfg h s0 op h0)
+    show NodupKeys (Coll.runO cfg (Coll.init cfg records rng) ops).2.items
+    rw [runO_eq]
+    exact this _ _ (nodupKeys_init cfg records rng)
   have h1 : (computeReadConfig (pre ++ .readMask m :: .incl f :: post)).readMask = m :=
     (C01_read_options_last_wins pre (.incl f :: post)).1 m (by
       intro o ho
